@@ -38,6 +38,9 @@ type World struct {
 	WriteN    int
 	FailExec  int
 	FailWrite int
+	// FailWriteIf, if set, makes every write it selects fail (independent of how many writes the
+	// executor makes and when).
+	FailWriteIf func(*migrate.Revision) bool
 }
 
 func New() *World { return &World{Revs: map[string]*migrate.Revision{}} }
@@ -75,7 +78,7 @@ func (w *World) ReadRevision(_ context.Context, v string) (*migrate.Revision, er
 }
 func (w *World) WriteRevision(_ context.Context, r *migrate.Revision) error {
 	w.WriteN++
-	if w.WriteN == w.FailWrite {
+	if w.WriteN == w.FailWrite || (w.FailWriteIf != nil && w.FailWriteIf(r)) {
 		w.Log = append(w.Log, Ev{Kind: "W", OK: false, Rev: *CpRev(r)})
 		return errors.New("write boom")
 	}
